@@ -10,7 +10,7 @@ LEAN_MODULES = ["Ebv.Props.C27"]
 MODEL_MODULES = ["Ebv.Model.Valve"]
 DRIVER = "Drivers/C27.lean"
 THEOREMS = [
-    "Ebv.C27.update_cases", "Ebv.C27.lastGood_is_lastConfirm", "Ebv.C27.coil_follows_target",
+    "Ebv.C27.update_cases", "Ebv.C27.lastGood_is_lastConfirm", "Ebv.C27.update_after_history", "Ebv.C27.coil_follows_target",
     "Ebv.C27.timeout_goes_safe", "Ebv.C27.update_dichotomy", "Ebv.C27.no_error_before_movingTime",
     "Ebv.C27.confirms_bool", "Ebv.C27.good_eq_confirms_closed_safe", "Ebv.C27.error_sticky_until_reset",
     "Ebv.C27.error_only_by_timeout", "Ebv.C27.good_open_safe_inverted",
